@@ -16,6 +16,10 @@ flow draws itself, `true` = the supplied `z`).
   flow ifp_row j [b:ld,…]                  ImportanceFlowProposal.compute_meta_proposal_samples (log_q row)
   flow ifp_upd level j [b:ld,…] [q,…]      ImportanceFlowProposal.update_log_q
   flow ifp_draw i jcheck [b:ld,…]          ImportanceFlowProposal.draw (log_q row)
+  flow ar fwd|inv [v,…] [[S rows]] [[T rows]]   masked affine autoregressive layer in dimension n = length of v, conditioners
+                                           affine in the strict prefix: s_i(x) = S[i][0] + Σ_{j<i} S[i][j+1]·x_j (same for t);
+                                           answer: `[mapped point] J` with J = ∏ s_i the multiplicative volume factor of the
+                                           forward map at the (pre-)image;  `err=value` when some s_i = 0
 -/
 namespace NessaiVerif.Driver.Flow
 open NessaiVerif NessaiVerif.Parse NessaiVerif.Flow
@@ -36,8 +40,30 @@ def parsePair? (s : String) : Option (Rat × Rat) :=
 
 def flowsOf (ps : List (Rat × Rat)) : List (NFlowM Unit Unit Rat) := ps.map fun p => pointFlow p.1 p.2 0
 
+/-- conditioner `i` from a coefficient table: constant term + coefficients of the strict prefix only -/
+def tableFn {n : Nat} (tab : List (List Rat)) (i : Fin n) (x : Fin n → Rat) : Rat :=
+  let row := tab.getD i.val []
+  row.getD 0 0 + (List.ofFn fun j : Fin n => if j.val < i.val then row.getD (j.val + 1) 0 * x j else 0).sum
+
+def arRun (inv : Bool) (v : List Rat) (S T : List (List Rat)) : String :=
+  let n := v.length
+  let x : Fin n → Rat := fun i => v.getD i.val 0
+  let s : Fin n → (Fin n → Rat) → Rat := tableFn S
+  let t : Fin n → (Fin n → Rat) → Rat := tableFn T
+  let tr : Transform (Fin n → Rat) (Fin n → Rat) Rat := autoregressive (fun a => a) s t
+  let out := if inv then (tr.inv x).1 else (tr.fwd x).1
+  let pre := if inv then out else x
+  let scales := List.ofFn fun i : Fin n => s i pre
+  if scales.any (· == 0) then "err=value"
+  else showList showRat (List.ofFn out) ++ " " ++ showRat (scaleProd (fun _ => true) (fun i => s i pre))
+
 def handle (toks : List String) : String :=
   match toks with
+  | ["ar", dir, v, S, T] =>
+    match parseList? parseRat? v, parseList? (parseList? parseRat?) S, parseList? (parseList? parseRat?) T with
+    | some v, some S, some T =>
+      if dir == "fwd" then arRun false v S T else if dir == "inv" then arRun true v S T else "bad-op"
+    | _, _, _ => "bad-op"
   | ["nflow_lp", b, ld] =>
     match parseRat? b, parseRat? ld with
     | some b, some ld => showRat ((pointFlow b ld 0).logProb ())
